@@ -15,6 +15,11 @@ import (
 // VERIF_PROPERTY restricts it to one property.
 func TestReplay(t *testing.T) {
 	only := os.Getenv("VERIF_PROPERTY")
+	for id, f := range otherReplays {
+		if only == "" || only == id {
+			f(t)
+		}
+	}
 	var ids []string
 	for id := range streamVerdicts {
 		if only == "" || only == id {
@@ -46,6 +51,10 @@ func TestReplay(t *testing.T) {
 		}
 	}
 }
+
+// otherReplays holds the replay functions of properties whose cases are not
+// plain StreamCases.
+var otherReplays = map[string]func(t *testing.T){}
 
 // TestMinimize structurally shrinks the failing case in the file VERIF_REPLAY
 // and rewrites the file (used by the driver after rapid's own shrinking).
